@@ -5,7 +5,8 @@
    Besides the known classes the theorems of this file exclude (decidably, [extra_excluded] and the
    alphabet [c07r_op]):
      - create_dir_all / remove_dir_all;
-     - renames between two different directories;
+     - renames between two different directories once one of the two directories is synced while the rename
+       is unflushed (a cross-directory rename that a crash meets unflushed is covered);
      - any creation of a file at a name a file left since the last crash (FsSafe.KRecreate; the known
        finding Recreate is narrower);
      - a rename onto a name a directory was removed from since the last crash;
@@ -22,8 +23,7 @@ Record GInv (s : fs) (d : dworld) (gh : ghost) : Prop := {
   gi_dirty : forall o q, In o (pending s) -> is_data_op q o = true ->
                (exists j, nget (names (dw d)) q = Some (EFile j) /\ mem_ino j (gdirty gh) = true)
                \/ mem_path q (ggone gh) = true;
-  gi_rt : forall f r, In (PRename f r) (pending s) -> mem_path r (grt gh) = true;
-  gi_side : forall f r, In (PRename f r) (pending s) -> same_parent f r = true
+  gi_rt : forall f r, In (PRename f r) (pending s) -> mem_path r (grt gh) = true
 }.
 
 (* ---- small facts ---------------------------------------------------------------------------------------- *)
@@ -56,12 +56,6 @@ Lemma mem_del_ino_self i l : mem_ino i (del_ino i l) = false.
 Proof.
   destruct (mem_ino i (del_ino i l)) eqn:E; [|reflexivity]. apply mem_ino_In in E. unfold del_ino in E.
   apply filter_In in E as [_ E]. rewrite N.eqb_refl in E. discriminate.
-Qed.
-
-Lemma same_parent_child f r p : same_parent f r = true -> child_of f p = child_of r p.
-Proof.
-  unfold same_parent, child_of. destruct (parent f) as [a|]; [|discriminate]. destruct (parent r) as [b|]; [|discriminate].
-  intro E. apply path_eqb_eq in E. subst b. reflexivity.
 Qed.
 
 Lemma child_is_prefix : forall r p, child_of r p = true -> is_prefix p r = true.
@@ -260,8 +254,12 @@ Section HypOfKnown.
     - (* SyncData *) nils. assert (Hst : stale (dw d) slot = false) by assumption. rewrite Hst. auto.
     - (* FLen *) nils. assert (Hst : stale (dw d) slot = false) by assumption. rewrite Hst. auto.
     - (* SyncDir *)
-      split; [reflexivity|]. split; [reflexivity|]. intros f r Hin.
-      apply same_parent_child. apply (gi_side _ _ _ HG f r Hin).
+      split; [reflexivity|]. split; [reflexivity|]. intros Hdir f r Hin. apply is_dir_iff in Hdir. rewrite Hdir in Hx.
+      apply (gi_pren _ _ _ HG) in Hin as [i Hi].
+      destruct (Bool.eqb (child_of f p) (child_of r p)) eqn:E; [apply Bool.eqb_prop; exact E|]. exfalso.
+      assert (X : existsb (fun r0 : N * path * path => let '(_, f0, g0) := r0 in negb (Bool.eqb (child_of f0 p) (child_of g0 p))) (gpren gh) = true).
+      { apply existsb_exists. exists (i, f, r). split; [exact Hi|]. rewrite E. reflexivity. }
+      congruence.
     - (* Mkdir *)
       nils. assert (Hr : is_root p = false) by assumption.
       assert (Hks : match nget (names (dw d)) p with Some _ => false | None => mem_path p (ggone gh) end = false) by assumption.
@@ -651,12 +649,6 @@ Section GhostStep.
     - revert Hi. rewrite Ho. intros _. eapply grt_after_new; eauto.
   Qed.
 
-  Lemma ginv_side f r : In (PRename f r) (pending s') -> same_parent f r = true.
-  Proof.
-    intro Hin. apply ginv_pren in Hin as [i Hi]. destruct (pren_after_sub _ _ _ _ _ i f r Hi) as [Hold|(Ho & _)].
-    - apply (gi_side _ _ _ HG). apply (gi_pren _ _ _ HG). eauto.
-    - rewrite Ho in Hop. exact Hop.
-  Qed.
   (* ---- the dirty inodes ---- *)
   Hypothesis HH : HRel (whs w) (shs (dw d)).
   Hypothesis Hnc : forall dr, o <> Crash dr.
@@ -1014,7 +1006,6 @@ Proof.
   - intros i f r [].
   - intros o q [].
   - intros f r [].
-  - intros f r [].
 Qed.
 
 Lemma kstep_refines w d gh o :
@@ -1043,7 +1034,6 @@ Proof.
     + intros o' q Hin Hd. rewrite Edy, Eg, (gdirty_kupdate0 _ _ _ _ _ Hnc).
       apply (ginv_dirty_step o w d gh HI HH HG Hop Hhyp Hnc HI' Hobs o' q Hin Hd).
     + intros f r Hin. rewrite Ert. apply (ginv_rt w d gh o HI HG Hop Hk Hhyp f r Hin).
-    + intros f r Hin. apply (ginv_side w d gh o HI HG Hop Hk Hhyp f r Hin).
 Qed.
 
 Lemma GInv_init b : GInv (wfs (init_world b)) (init_dworld b) ghost0.
@@ -1052,7 +1042,6 @@ Proof.
   - intros f r. split; [intros []|intros [i []]].
   - intros i f r [].
   - intros o q [].
-  - intros f r [].
   - intros f r [].
 Qed.
 
